@@ -93,5 +93,7 @@ def check(ctx, rep):
     _n13.norm_13(ctx, rep)      # a prefix is split with a start position computed from its own leaf
     from ..rules import dar as _idx1
     _idx1.idx_1(ctx, rep, ['parso/python/pep8.py', 'parso/normalizer.py', 'parso/python/errors.py'])     # no constant index into a freshly filtered list
+    from ..rules import dar as _loop1
+    _loop1.loop_1(ctx, rep, ['parso/python/pep8.py', 'parso/normalizer.py', 'parso/python/prefix.py'])      # a value computed for one element of a loop is not used for the next one
     rep.note('Not decided: positions inside the file, non-negative columns, equality of issue lists across fresh / '
              'incremental / cached trees.')
